@@ -621,13 +621,24 @@ class Aspire:
 
         if checkpoint_bytes is not None:
             aspire._resume_from_default = checkpoint_bytes
+            # The checkpoint records the sampler's class name, the saved
+            # config (and `get_sampler_class`) its type string
+            sampler_class_types = {
+                "ImportanceSampler": "importance",
+                "Emcee": "emcee",
+                "MiniPCN": "minipcn",
+                "EmceeSMC": "emcee_smc",
+                "MiniPCNSMC": "minipcn_smc",
+                "BlackJAXSMC": "blackjax_smc",
+            }
+            checkpoint_sampler = (
+                checkpoint_state.get("sampler") if checkpoint_state else None
+            )
             aspire._resume_sampler_type = (
                 sampler
                 or saved_sampler_type
-                or (
-                    checkpoint_state.get("sampler")
-                    if checkpoint_state
-                    else None
+                or sampler_class_types.get(
+                    checkpoint_sampler, checkpoint_sampler
                 )
             )
             aspire._resume_n_samples = n_samples
